@@ -15,6 +15,42 @@ import (
 	"verif/harness/vh"
 )
 
+// c18MissingImport: a package of the program is used as a qualifier in the file without being
+// imported under that name.
+func c18MissingImport(name, src string, pkgNames map[string]bool) string {
+	fset := token.NewFileSet()
+	f, err := parser.ParseFile(fset, name, src, 0)
+	if err != nil {
+		return ""
+	}
+	imported := map[string]bool{}
+	for _, im := range f.Imports {
+		p := strings.Trim(im.Path.Value, `"`)
+		n := p[strings.LastIndex(p, "/")+1:]
+		if im.Name != nil {
+			n = im.Name.Name
+		}
+		imported[n] = true
+	}
+	unresolved := map[*ast.Ident]bool{}
+	for _, id := range f.Unresolved {
+		unresolved[id] = true
+	}
+	missing := ""
+	ast.Inspect(f, func(n ast.Node) bool {
+		if sel, ok := n.(*ast.SelectorExpr); ok {
+			if id, ok := sel.X.(*ast.Ident); ok && unresolved[id] && pkgNames[id.Name] && !imported[id.Name] && missing == "" {
+				missing = id.Name
+			}
+		}
+		return true
+	})
+	if missing != "" {
+		return fmt.Sprintf("%s uses package %q (%s.…) without importing it", name, missing, missing)
+	}
+	return ""
+}
+
 // c18Inspect checks one emitted file: imports and top-level declarations.
 // allowed: import paths of the user's packages; fmtAllowed: an enum @error/@panic action
 // or wrapErrors is in effect somewhere in the converter.
@@ -84,6 +120,19 @@ func TestC18(t *testing.T) {
 		}
 		// compile problems and shadowing are C01's business
 		_ = msg
+		if out != nil && out.BuildErr != "" {
+			// one kind of compile problem belongs here: a package that is used but not imported
+			// (the import set is then not "exactly the packages that own the types ... used")
+			names := map[string]bool{}
+			for _, pk := range c.Conv.Prog.Pkgs {
+				names[pk.Name] = true
+			}
+			for n, src := range out.Files {
+				if m := c18MissingImport(n, src, names); m != "" {
+					return m, "", len(out.Files)
+				}
+			}
+		}
 		if out == nil || out.BuildErr != "" {
 			return "", "discard: does not compile", 0
 		}
